@@ -86,8 +86,8 @@ End Generic.
 Section Filters.
   Variable lower : cp -> list cp.            (* char::to_lowercase *)
   Variable fold : cp -> option (list cp).    (* fold_non_ascii_char *)
-  Variable stem : list cp -> list cp.        (* rust_stemmers::Stemmer::stem *)
-  Variable dict_find : list cp -> list (N * N).   (* AhoCorasick::find_iter(token text): byte ranges *)
+  Variable stem : N -> list cp -> list cp.   (* rust_stemmers::Stemmer::stem, per filter instance (language) *)
+  Variable dict_find : N -> list cp -> list (N * N).   (* AhoCorasick::find_iter(token text) of filter instance d: byte ranges *)
 
   Definition is_ascii (t : list cp) : bool := forallb (fun c => c <? 128) t.
   Definition ascii_lower (c : cp) : cp := if (65 <=? c) && (c <=? 90) then c + 32 else c.
@@ -117,8 +117,8 @@ Section Filters.
                 | _, _ => None                                  (* str::split_at panics off a boundary *)
                 end
     end.
-  Definition split_token (tk : token) : option (list token) :=
-    let '(pos, cuts_desc) := cuts_loop (dict_find (t_text tk)) 0 [] in
+  Definition split_token (d : N) (tk : token) : option (list token) :=
+    let '(pos, cuts_desc) := cuts_loop (dict_find d (t_text tk)) 0 [] in
     if pos =? blen (t_text tk) then
       match split_rev (t_text tk) cuts_desc [] with
       | None => None
@@ -128,7 +128,7 @@ Section Filters.
     else Some [tk].
 
   Inductive tfilter :=
-  | FLower | FAsciiFold | FRemoveLong (limit : N) | FAlnumOnly | FStop (words : list (list cp)) | FStem | FSplit.
+  | FLower | FAsciiFold | FRemoveLong (limit : N) | FAlnumOnly | FStop (words : list (list cp)) | FStem (lang : N) | FSplit (dict : N).
 
   Definition filter_fn (fl : tfilter) (tk : token) : option (list token) :=
     match fl with
@@ -137,8 +137,8 @@ Section Filters.
     | FRemoveLong limit => Some (if blen (t_text tk) <? limit then [tk] else [])      (* text.len() < limit *)
     | FAlnumOnly => Some (if forallb is_ascii_alnum (t_text tk) then [tk] else [])
     | FStop words => Some (if existsb (cps_eqb (t_text tk)) words then [] else [tk])
-    | FStem => Some [with_text tk (stem (t_text tk))]
-    | FSplit => split_token tk
+    | FStem l => Some [with_text tk (stem l (t_text tk))]
+    | FSplit d => split_token d tk
     end.
 
   Definition apply_filter (fl : tfilter) (ts : list token) : option (list token) := omap_flat (filter_fn fl) ts.
@@ -234,7 +234,7 @@ Section Filters.
 
   (* ---- the only filter that can panic is the compound splitter, and only when its dictionary
           matches off character boundaries (byte patterns that are not UTF-8) ---- *)
-  Hypothesis dict_find_ok : forall s a b, In (a, b) (dict_find s) -> boundary s a /\ boundary s b.
+  Hypothesis dict_find_ok : forall d s a b, In (a, b) (dict_find d s) -> boundary s a /\ boundary s b.
 
   Lemma cuts_loop_boundaries s : forall ms pos cuts,
     (forall a b, In (a, b) ms -> boundary s a /\ boundary s b) ->
